@@ -1371,6 +1371,61 @@ class World:
                     "payload": self.of(pay) if isinstance(pay, gt.Node)
                     else pay})
 
+    # ---- last step of a history -------------------------------------------
+    def terminal_step(self):
+        """A block whose size the schema cannot express (-1) is put into an
+        interval of an IR, alone or in one batch with ordinary blocks.
+        Whether the API takes it is its own business (today it does; a
+        stricter release may refuse); what the properties ask is that after
+        a refusal nothing is left registered, listed or half-moved. Nothing
+        follows but the final check, because address lookups over such a
+        block are outside every property."""
+        rnd, gt = self.rnd, self.gt
+        ivs = [x for x in self.lids("I") if self.ir_of(x) is not None]
+        if not ivs:
+            return
+        p = rnd.choice(ivs)
+        odd = self.register(
+            (gt.CodeBlock if rnd.random() < 0.5 else gt.DataBlock)(
+                offset=rnd.randint(0, 5), size=-1, uuid=self.new_uuid()),
+            "C", None, {"offset": 0, "size": -1})
+        self.kind[odd] = "C" if isinstance(self.obj[odd],
+                                           gt.CodeBlock) else "D"
+        self.attrs[odd]["offset"] = self.obj[odd].offset
+        mates = [x for x in self.pick_others("CD", p)
+                 if self.parent.get(x) != p][:rnd.randint(0, 3)]
+        if mates and not self.can_attach_all(mates, p):
+            mates = []
+        batch = [odd] + mates
+        rnd.shuffle(batch)
+        route = rnd.choice(["update", "add", "attr", "ior"]) \
+            if not mates else rnd.choice(["update", "ior"])
+        self.log(op="terminal:inexpressible-size", parent=p, batch=batch,
+                 route=route)
+        S = self.obj[p].blocks
+        objs = [self.obj[x] for x in batch]
+        try:
+            if route == "update":
+                S.update(objs)
+            elif route == "ior":
+                S |= set(objs)
+            elif route == "add":
+                S.add(objs[0])
+            else:
+                objs[0].byte_interval = self.obj[p]
+            self.ctx.count("terminal:inexpressible-size:accepted")
+        except Exception as e:
+            self.ctx.count("terminal:inexpressible-size:refused")
+            self.ctx.seen("terminal_refusals", type(e).__name__)
+        for x in batch:
+            now_in = self.obj[x] in S
+            if now_in and self.parent.get(x) != p:
+                if self.parent.get(x) is not None:
+                    self.detach_model(x)
+                self.attach_model(x, p)
+            # not taken: the model keeps it where it was
+        self.verify("terminal:inexpressible-size")
+
     # ---- driver ----------------------------------------------------------
     def seed_world(self, nirs):
         rnd = self.rnd
@@ -1422,6 +1477,8 @@ def run_history(ctx, case, gt, prop, nops):
     for _ in range(nops):
         if w.step(WEIGHTS[prop]):
             done += 1
+    if prop in ("C03", "C04", "C16") and rnd.random() < 0.25:
+        w.terminal_step()
     ctx.count("history_ops", done)
     ctx.seen("nontrivial", [
         {k: v for k, v in op.items()} for op in case.ops])
